@@ -248,6 +248,12 @@ def run(binary, steps, env=None, settle=3.0, final_stop=True):
             pump()
             events.append({"ev": "cmd", "text": "stop", "kind": "stop", "t": int((time.time() - s.t0) * 1000), "afterbest": False,
                            "best_seen": count_best(), "delivered": True, "ready": answered, "refused": False, "error": ""})
+            if accepted_gos[0] > 0:
+                # every accepted go has now been stopped: wait for the answers (the monitor judges an expired wait)
+                want = accepted_gos[0]
+                okw = s.wait_until(lambda: s.best_count >= want, 10.0)
+                pump()
+                events.append({"ev": "waited", "ok": okw, "t": int((time.time() - s.t0) * 1000)})
         time.sleep(0.05)
         pump()
         s.send("quit")
